@@ -85,10 +85,14 @@ func (c *monC09) After(m *Machine, s *Step) *Violation {
 		verdict := "alive"
 		if hadStamp && c.has[b] {
 			idle0, idle1 := r.T0.Sub(c.last[b]), r.T1.Sub(c.last[b])
+			// The stamp is the stamping request's clock cut to whole seconds, and the model's
+			// activity time is that request's end: the real deadline lies in (last-1s-d, last] + E
+			// (d = duration of that request). So a request starting after last+E is certainly
+			// late, one ending before last+E-1s-d certainly in time.
 			switch {
-			case idle0 > E+2*time.Second:
+			case idle0 > E+5*time.Millisecond:
 				verdict = "expired"
-			case idle1 < E-2*time.Second:
+			case idle1 < E-1500*time.Millisecond:
 				verdict = "alive"
 			default:
 				verdict = "inconclusive"
@@ -208,7 +212,7 @@ var profC09 = profile{
 
 func TestC09(t *testing.T) {
 	s := st("C09")
-	s.Rule = "expire machine: ExpireAfter 5 s-24 h, whitelist a generated subset of the application keys; logins on every path that fires the auth event, application keys, pending 2FA / OAuth2 state, visits, gaps on either side of ExpireAfter (>= 2 s away); " +
+	s.Rule = "expire machine: ExpireAfter 5 s-24 h, whitelist a generated subset of the application keys; logins on every path that fires the auth event, application keys, pending 2FA / OAuth2 state, visits, gaps on either side of ExpireAfter (ExpireAfter-2 s counts as inside, ExpireAfter and ExpireAfter+1 s as outside); " +
 		"oracle: model last-activity per browser; what the downstream probe can read and what the response leaves in the client's session; non-trivial = the case has >=1 surviving and >=1 expiring gap; distinct by FNV of the abstract trace"
 	p := profC09
 	rapid.Check(t, func(rt *rapid.T) {
@@ -222,7 +226,7 @@ func TestC09(t *testing.T) {
 			}
 		}
 		E := cfg.ExpireS
-		gaps := []int{0, 1, E / 2, E - 3, E + 3, E + E/4 + 3, 3 * E}
+		gaps := []int{0, 1, E / 2, E - 3, E - 2, E, E + 1, E + 3, E + E/4 + 3, 3 * E}
 		for i := range ops {
 			switch ops[i].K {
 			case "advance":
